@@ -119,8 +119,12 @@ func msgRule(g *vh.Gen, key string, rs *ruleSet) {
 	case 0: // a rewrite abandoned by an error or a wrong-typed return: must be silent
 		stmts = append(stmts, g.Pick(`error("late failure")`, "return 7", "return nil", "return false", `return "x"`, "local z = nil\n return z.f"))
 		label = "N"
-	case 1: // plain no answer
-		stmts = []string{g.Pick(noAnswer...)}
+	case 1: // plain no answer ("return arg1" would be an answer here: the message itself)
+		na := g.Pick(noAnswer...)
+		for na == "return arg1" {
+			na = g.Pick(noAnswer...)
+		}
+		stmts = []string{na}
 		label = "N"
 	default:
 		stmts = append(stmts, "return arg1")
